@@ -33,6 +33,46 @@ CLAIMED = {
         text="TLC explores every interleaving of client calls (incl. out-of-order use, timeouts, close in 4 blocking phases), worker progress and up to 2 raise/kill faults for 2 workers: MisuseRejected, ErrorTypeOK, TimeoutIsTimeout, CloseNeverRaises, NoWorkerLeft, no deadlock, and NoHang under fairness. Behaviours generated by tlc -simulate plus hand-written fault scripts are executed against the real class (sub-environments that raise / sleep / SIGKILL at a given command, 10 s watchdog); TLC validates each recorded execution, inferring worker progress.",
         note="Trusted: TLC; fork-based scenario runner with watchdog (hang = no return within 10 s, injected sleeps 0.5 s, timeouts 0.15 s); BrokenPipe/ConnectionReset abstracted to one class. Exhaustive configs assume the client does not re-issue a wait after EOFError (that history is the recorded known finding F-C13-2).",
         design="4/C13"),
+    "C01": dict(
+        technique="TLA+ life-cycle spec Evo.tla (relational views, learn/act memo = functional determinism, storage ownership) model-checked by TLC + TLC trace validation of operation scripts executed on real agents of all 11 algorithms",
+        text="TLC explores all operation sequences (create/clone/learn/mutate/save/load/discard) up to the bound with ideal constructors and checks NoSharing, Frame, AllCoherent, DistinctIdx, Functional. Scripts that clone at every point of a history (learn steps, the five mutation kinds, earlier clones), train parent and clone with the same batch, train/mutate/discard siblings are executed on real agents of every algorithm x observation family; after every operation each agent is projected (SHA-256 of every weight, target, optimizer state and algorithm-specific tensor; hp; bookkeeping; greedy outputs; data_ptr/id of all mutable storage) and TLC validates CloneOK, Frame, NoSharing and the learn memo on the recorded execution.",
+        note="Trusted: TLC, projection vfw/project/agent.py (fingerprints <=> content, pointer sets), deterministic learn steps (all RNGs seeded from the batch id, single thread, CPU). PPO/DDPG/TD3 are built with share_encoders=False (sharing cannot be constructed under Python 3.12). DQN's target may be re-synchronised on copy as the property allows.",
+        design="4/C01"),
+    "C02": dict(
+        technique="TLA+ life-cycle spec Evo.tla (MutateOK per mutation kind, Coherent, ShadowArch/ShadowW, label) model-checked by TLC + TLC trace validation of mutation scripts run through the real Mutations class on real agents",
+        text="TLC checks that MutateOK in every reachable state preserves AllCoherent/Frame for DQN-like and actor-critic shapes. The real Mutations.mutation() is driven with one-hot kind probabilities (none, architecture, parameters, activation, RL hyperparameter), per agent and per population, pre- and in-training, over generations of clone/mutate/learn; TLC validates per event: optimizer parameter identity, every param-group lr, target architecture and weights, all-or-none architecture change of evaluation networks, mut label, can-act, population size/order, and that the following learn step moves every trained network.",
+        note="Trusted: as C01. Method/arguments/direction of a mutation are drawn by the real code and observed, only the kind is forced. TD3/MATD3 run with policy_freq=1 here.",
+        design="4/C02"),
+    "C05": dict(
+        technique="TLA+ spec EvoSelect.tla (exact rational mean comparison, permissive ties) model-checked by TLC + TLC trace validation of the real TournamentSelection on populations of real agents with logged random draws",
+        text="TLC enumerates every small population (ties, negative and unequal-length histories), window, tournament size, elitism flag, every draw and every permitted winner and checks SizeOK, DistinctIdx, EliteKept, EliteIsBest. The real select() is run for several generations on real agents; np.random.randint is logged, parents are identified by weight fingerprints (twins handled as candidate sets), and TLC validates each generation: elite maximal, size, elite first, each member best of its tournament, fresh distinct indices, faithful copies, old population untouched, no shared storage.",
+        note="Trusted: TLC, projection as C01, small integer scores so np.mean order equals exact rational order. Empty fitness histories are outside the quantifier.",
+        design="4/C05"),
+    "C07": dict(
+        technique="TLA+ life-cycle spec Evo.tla (Save/LoadNew/LoadInto with RestoreOK, learn memo) model-checked by TLC + TLC trace validation of save/load scripts on real agents of all algorithms",
+        text="TLC checks RestoreOK/Functional over all operation sequences with one file. Scripts with histories of learn steps and mutations before the save, the original moving on, load into a new and into an existing agent, and both continuing with the same batches are executed on real agents; TLC validates field by field (hp, mutated architectures, weights of evaluation and target networks, optimizer state, bookkeeping, algorithm-specific tensors, greedy outputs) and that original-at-save-time and restored agent reach the same weights.",
+        note="Trusted: as C01. Crash points are modelled as loading an earlier file after the agent moved on (a save is a single torch.save). Agent wrappers (RSNorm) are not yet covered.",
+        design="4/C07"),
+    "C14": dict(
+        technique="TLA+ spec ActionSel.tla (allowed-action sets per mask / exploration / bounds) model-checked by TLC + TLC-dumped grid replayed into the real get_action of every algorithm with stubbed network outputs, each call validated by TLC (ActionSel_Trace)",
+        text="TLC enumerates value vectors with ties, all masks with a legal action, exploration on/off, MultiDiscrete/MultiBinary, Box with asymmetric per-dimension bounds, two-agent calls with per-agent masks and environment-defined actions: Legal, GreedyIsBestAllowed, InBounds, BatchShape, Override. Each grid row is replayed into the real agents (DQN, CQN, Rainbow, NeuralUCB/TS, PPO, DDPG, TD3, MADDPG, MATD3, IPPO) with the policy forward stubbed; TLC validates the returned action and shape, action_space.contains is asserted independently.",
+        note="Trusted: TLC, driver-side stubbing of network forwards (selection logic is under test, not the network). Stochastic policies in training mode may leave Box bounds (not flagged).",
+        design="4/C14"),
+    "C15": dict(
+        technique="TLA+ spec ObsPrep.tla (shape-and-content algebra with BatchConsistency, RoundTrip, CriticMap) model-checked by TLC + every TLC-dumped case replayed into the real preprocessing / assembly functions and agents",
+        text="TLC enumerates Box ranks 0-4 with extents {1,2,3}, Discrete incl. n=1, MultiDiscrete, MultiBinary, Dict/Tuple, leading shapes incl. batch-of-one and (step, env), with negative-control variants that must be rejected. Each dumped case (expected shape and content) is materialised as numpy/torch/TensorDict/number and passed to the real preprocess_observation, get_vect_dim, maybe_add_batch_dim, assemble/disassemble_homogeneous_outputs, stack_critic_observations and IPPO.learn's batching; the consequence clause is checked on real DQN/PPO/MADDPG/MATD3/IPPO agents.",
+        note="Trusted: TLC, exact float32 arithmetic on the chosen dyadic grid; consequence clause uses tolerance 1e-6 single-threaded.",
+        design="4/C15"),
+    "C17": dict(
+        technique="TLA+ spec GAE.tla (masked backward recursion as the code performs it vs. per-episode-segment definition; row alignment) model-checked by TLC + TLC-dumped rollouts replayed into the real PPO.learn / IPPO.learn through the guarded recorder hook, each call validated by TLC (GAE_Trace)",
+        text="TLC checks RecursionMeetsDefinition, NoLeak, ColumnsSeparate, RowsAligned for every placement of done flags (incl. first step, last step, next_done), gamma, lambda in {0,1/2,1}, plus a negative control. 21k dumped rollouts are packed into real learn calls (PPO: 1-4 envs, Box/Discrete, un-vectorised; IPPO: envs x agents sharing a policy, both next_done shapes); the hook exports advantages/returns and the flattened rows; TLC validates every backward step, returns, bit-identical estimates before a boundary under perturbation, and decoded rows.",
+        note="Trusted: TLC, the guarded hook (agilerl/utils/verif_hooks.py) reports the tensors learn() uses, scaled-integer arithmetic (ScaleExact). Critic next_value is observed and bound.",
+        design="4/C17"),
+    "C18": dict(
+        technique="TLA+ spec C51.tla (exact-integer transcription of the categorical projection incl. fix-up order and flattened index_add offsets) model-checked by TLC + every TLC-dumped case replayed into the real RainbowDQN._dqn_loss/learn with stubbed network outputs, traces validated by TLC (C51_Trace)",
+        text="TLC checks MassConserved, MeanConserved, InRange, Neighbours, NonNeg on the whole grid (2-5 atoms, rewards inside/outside/on atoms, done, gamma^n in {0,1/4,1/2,1}). Every case is replayed into the real _dqn_loss; proj_dist from the guarded hook must equal the spec's m exactly, the element-wise loss must equal -sum m ln q; real learn() runs (1-step, n-step, combined, with/without PER, up to 51 atoms) are validated as traces incl. gamma vs gamma^n and priorities.",
+        note="Trusted: TLC, dyadic grids so float32 is exact, rigorous float32 bound for the cross-entropy, hook reports the tensors used.",
+        design="4/C18"),
 }
 NOT_YET = "check not built yet in this round (planned, see DESIGN.md section 4)"
 
